@@ -177,6 +177,8 @@ type Program struct {
 	Name string
 	Main *File
 	Feat string
+	// DescOnly: the program is compared in the descriptor groups only (its structs have side-dependent field sets)
+	DescOnly bool
 }
 
 func (f *File) AddStruct(cat, name string, fields ...*Field) *Struct {
